@@ -12,7 +12,7 @@ CHECKS["C10"] = dict(
         "supports of Global/Sequence/Fourier grids are read as 'covers the transformed domain' on bounded domains and literally (canonical length x dx/dt) on the unbounded Laguerre/Hermite domains",
         "a grid node rejected by getDomainInside() only because its computed coordinate exceeds the bound by <= 4 ulp is excused (statement: 'up to rounding at the boundary itself') and counted as an outcome",
         "the conformal truncation p is read as in the implementation comments: terms k = 0..p of the asin series (p + 1 terms)",
-        "under a conformal map the Newton inverse is additionally guarded by a 2 s watchdog per state; evaluation oracles of a state are skipped once its pull-back test failed",
+        "under a conformal map the Newton inverse is additionally guarded by a 5 s wall-clock watchdog per state (60 s when the state is replayed alone; a normal evaluation phase takes milliseconds); every configuration runs under a watchdog of 90 s of CPU time (360 s when replayed alone); evaluation oracles of a state are skipped once its pull-back test failed",
     ],
     jobs=[dict(harness="scan_transform", variant="asan", args=[], quick=["--tier", "quick"], thorough=["--tier", "thorough"],
                deadline_quick=240, deadline_thorough=1200)],
